@@ -27,7 +27,7 @@ PROPS = {
                 GEN + "both build profiles (in debug builds a glitch usually trips a debug assertion first; release builds show the "
                 "stale arguments); non-trivial = distinct history in which node functions ran",
                 builds=("debug", "release"), nq=200),
-    "C06": spec(["IncrVerif.Props.C06", "IncrVerif.Props.C01Global", "IncrVerif.Props.C01History", "IncrVerif.Props.C01MapRef", "IncrVerif.Props.C06History"], [("static", 0.25), ("general", 0.35), ("bind", 0.25), ("varw", 0.15)], ["api", "ev", "read"],
+    "C06": spec(["IncrVerif.Props.C06", "IncrVerif.Props.C01Global", "IncrVerif.Props.C01History", "IncrVerif.Props.C01MapRef", "IncrVerif.Props.C06History", "IncrVerif.Props.C06Full"], [("static", 0.25), ("general", 0.35), ("bind", 0.25), ("varw", 0.15)], ["api", "ev", "read"],
                 GEN + "all cutoff kinds on all node kinds incl. vars, equal-value writes, unobserve/re-observe; "
                 "non-trivial = distinct history in which node functions ran"),
     "C14": spec(["IncrVerif.Props.C14", "IncrVerif.Props.C14History", "IncrVerif.Props.C14Drivers"], [("expert", 1.0)], ["api", "ev", "read", "snap"],
